@@ -23,6 +23,7 @@ RULE = (
     "(CSE off: all calibrations; CSE on: one calibration quaternion in quick, all in thorough). One evaluation = one output at one point. distinct = points; "
     "non-trivial = points with a non-identity composed rotation or non-zero gyro."
     " The compiled model is also fed from float32 buffers (State.from_data / Control.from_data) whose values use the full 24-bit mantissa and compared with the kinematics on exactly those values to 1e-9."
+    " Partially named State / Control inputs (everything else left to its default) are evaluated against the kinematics with zeros there, with freed non-zero buffers of the same size lying around."
 )
 ASSUMPTIONS = [
     "exact comparison: the model's Float coefficients (0.5, 1.0) are dyadic and converted to rationals without loss",
@@ -214,6 +215,34 @@ def eval_compiled(case):
                         if not any(fl["key"] == f"compiled:{name}" for fl in fails):
                             fails.append({"key": f"compiled:{name}", "what": f"compiled model {name} = {got[name]!r}, kinematics give "
                                           f"{float(val)!r} at ori={ori} cori={cori} f={f} bias={b} gyro={w} g={g} dt={dt} (cse={case['cse']})"})
+            # partially named inputs (the repository's own IMU tests build Control.from_dict({f_3: -9.81})): everything that is not
+            # named is zero, whatever freed buffers of the same size contain
+            if not fails:
+                import numpy as np
+                st_names, ct_names = pyimpl.names_of(mdl.State), pyimpl.names_of(mdl.Control)
+                for oi, ori in enumerate(QUATS[4:6]):
+                    ori = tuple(F(x) for x in ori)
+                    f_, w_ = (F(0), F(0), F(-157, 16)), (F(0), F(1, 2), F(0))
+                    dt = DTS[oi % 2]
+                    zero3 = (F(0), F(0), F(0))
+                    exp = expected_by_name(reference(ori, cori, list(f_), [F(x) for x in b], list(w_), g, dt, zero3, zero3))
+                    env = env_of(ori, cori, f_, b, w_, g, dt, zero3, zero3)
+                    skw = {s_: float(env[s_]) for s_ in NAMES["ori"] if env[s_] != 0}
+                    ckw = {c_: float(env[c_]) for c_ in ct_names if env[c_] != 0}
+                    g1, g2 = np.full((len(st_names), 1), 777.25), np.full((len(ct_names), 1), -333.5)
+                    del g1, g2
+                    try:
+                        out = mdl.model(float(dt), mdl.State(**skw), mdl.Control(**ckw))
+                    except Exception as e:
+                        fails.append({"key": f"model-raises:{type(e).__name__}:partial", "what": f"compiled strapdown model raised {e!r} on partially named inputs"[:300]})
+                        break
+                    got = pyimpl.vec_by_name(out)
+                    for name, val in exp.items():
+                        n += 1
+                        if not pyimpl.close(got[name], float(val), 1e-9, abs(float(val))):
+                            if not any(fl["key"] == f"compiled-partial:{name}" for fl in fails):
+                                fails.append({"key": f"compiled-partial:{name}", "what": f"State({sorted(skw)}) / Control({sorted(ckw)}) with every other entry left to "
+                                              f"its default: {name} = {got[name]!r}, kinematics with zeros there give {float(val)!r} (cse={case['cse']})"})
             # the same compiled model fed from single-precision buffers (State.from_data / Control.from_data on float32 arrays whose
             # values use the whole 24-bit mantissa): the model is still evaluated in double precision, on exactly those values
             if not fails:
